@@ -336,6 +336,40 @@ func checkC03(e *core.Env) {
 			}
 			e.Eval(c.Name+"|"+sc.Shape()+fmt.Sprintf("|%d%d", sc.NHdrOpt, sc.NTrlOpt), nmeta > 0)
 			e.Count("events", int64(len(run.Events())))
+			// a stream that has completed successfully keeps its response metadata: the caller's context has ended
+			// by now (execScript ends it, as happens when a sibling call fails under a shared context); asking the
+			// finished stream for its headers again still yields what the handler set
+			if out := run.ClientOutcome(); kind != Unary && run.Stream != nil && out.Seen && out.OK && len(metaOracle(run)) == 0 {
+				var hdr metadata.MD
+				var herr error
+				pan := guard(func() { hdr, herr = run.Stream.Header() })
+				wantH := metadata.MD{}
+				sent := false
+				for _, ev := range run.Events() {
+					if ev.Who != "h" || ev.Call || ev.Err != nil {
+						continue
+					}
+					switch ev.Op {
+					case "sethdr", "sendhdr":
+						if !sent {
+							wantH = mdMerge(wantH, ev.MD)
+						}
+						if ev.Op == "sendhdr" {
+							sent = true
+						}
+					case "send":
+						sent = true
+					}
+				}
+				e.Count("header_asked_again_after_context_end", 1)
+				if pan != "" {
+					e.Violate(fmt.Sprintf("%s/stream/header-after-completion/panic", c.Name), trunc(pan, 300), witness(run))
+				} else if herr != nil {
+					e.Violate(fmt.Sprintf("%s/stream/header-after-completion/error", c.Name), fmt.Sprintf("the call had completed successfully; after the caller's context had ended, Header() on the finished stream returned %v", herr), witness(run))
+				} else if ok, why := mdContains(hdr, wantH); !ok {
+					e.Violate(fmt.Sprintf("%s/stream/header-after-completion/lost", c.Name), "the call had completed successfully; asked again after the caller's context had ended, Header() lacks pairs the handler set: "+why, witness(run))
+				}
+			}
 			for _, p := range metaOracle(run) {
 				sig := fmt.Sprintf("%s/%s/%s", c.Name, kindClass(kind), p[0])
 				if c.HTTP && kind != Unary && strings.HasPrefix(p[0], "trailer") {
